@@ -316,6 +316,9 @@ class qset(MutableSequenceSet[_T], abcs.Copyable):
         # is a duplicate.
         for v in filterfalse(leaving.__contains__, filter(self.__contains__, values)):
             raise Emsg.DuplicateValue(v)
+        # Arriving values must also be distinct from each other.
+        if len(set(values)) != len(values):
+            raise Emsg.DuplicateValue(values)
         self._hook_check(values, leaving)
         self._set_.difference_update(leaving)
         try:
